@@ -558,7 +558,7 @@ func (x *Ctx) unescapeUnicodeRule(r *core.Result, rs *core.RuleStat) {
 			if !isCall || c.Call.StaticCallee() == nil {
 				continue
 			}
-			switch c.Call.StaticCallee().Name() {
+			switch x.canon(c.Call.StaticCallee()) {
 			case "getu4":
 				if c.Call.Args[0] == ssa.Value(s) {
 					first = c
